@@ -73,6 +73,8 @@ struct upipe_audio_copy {
     unsigned int max_urefs;
     /** list of blockers (used during request) */
     struct uchain blockers;
+    /** true if the pipe holds a reference on itself while urefs are retained */
+    bool buffered;
     /** ubuf manager */
     struct ubuf_mgr *ubuf_mgr;
     /** flow format packet */
@@ -149,6 +151,7 @@ static struct upipe *upipe_audio_copy_alloc(struct upipe_mgr *mgr,
     upipe_audio_copy->planes = 0;
     upipe_audio_copy->samplerate = UINT64_MAX;
     upipe_audio_copy->remain = 0;
+    upipe_audio_copy->buffered = false;
 
     upipe_throw_ready(upipe);
 
@@ -213,14 +216,20 @@ static int upipe_audio_copy_check(struct upipe *upipe,
     if (upipe_audio_copy->flow_def == NULL)
         return UBASE_ERR_NONE;
 
-    bool was_buffered = !upipe_audio_copy_check_input(upipe);
+    /* The ubuf manager provider may answer from inside
+     * upipe_audio_copy_output_input (a buffered flow definition renews the
+     * request), which runs this function again: keep the pipe until we are
+     * done, and release the reference of upipe_audio_copy_input only once. */
+    upipe_use(upipe);
     upipe_audio_copy_output_input(upipe);
     upipe_audio_copy_unblock_input(upipe);
-    if (was_buffered && upipe_audio_copy_check_input(upipe)) {
+    if (upipe_audio_copy->buffered && upipe_audio_copy_check_input(upipe)) {
         /* All packets have been output, release again the pipe that has been
          * used in @ref upipe_audio_copy_input. */
+        upipe_audio_copy->buffered = false;
         upipe_release(upipe);
     }
+    upipe_release(upipe);
 
     return UBASE_ERR_NONE;
 }
@@ -482,7 +491,12 @@ static void upipe_audio_copy_input(struct upipe *upipe,
         upipe_audio_copy_block_input(upipe, upump_p);
         /* Increment upipe refcount to avoid disappearing before all packets
          * have been sent. */
-        upipe_use(upipe);
+        struct upipe_audio_copy *upipe_audio_copy =
+            upipe_audio_copy_from_upipe(upipe);
+        if (!upipe_audio_copy->buffered) {
+            upipe_audio_copy->buffered = true;
+            upipe_use(upipe);
+        }
     }
 }
 
